@@ -3,7 +3,7 @@
    extracted inductives (no Extract Constant, no native integers). *)
 Require Extraction.
 Require Import ExtrOcamlBasic.
-From CV Require Import Base.Geom Engine.Magic Engine.Encoding Chess.Rules Chess.Fen Engine.PositionRep Engine.RepAbs Chess.History Engine.Classify Chess.San Engine.PolyglotInst Engine.KPK Gen.BitbaseDump Engine.TimeMgr Engine.SearchDriver Engine.MateScore Engine.EndgameModel Engine.EvalCache Engine.GoParse.
+From CV Require Import Base.Geom Engine.Magic Engine.Encoding Chess.Rules Chess.Fen Engine.PositionRep Engine.RepAbs Chess.History Engine.Classify Chess.San Engine.PolyglotInst Engine.KPK Gen.BitbaseDump Engine.TimeMgr Engine.SearchDriver Engine.MateScore Engine.EndgameModel Engine.EvalCache Engine.GoParse Engine.UciSession.
 
 Extraction "model.ml"
   (* geometry specs *)
@@ -27,4 +27,4 @@ Extraction "model.ml"
   engine_W engine_W_black bitbase_dump kpk_legal kpk_moves kpk_win_now kpk_save_now
   calculate go search_depth_of is_mate score2str adjust eg_score eg_find egp_of_position registry t_init t_probe t_insert t_clear slot
   same_position occurred_before occurred_three_times fifty_moves insufficient_material
-  parse_go.
+  parse_go usession.
